@@ -42,6 +42,8 @@ class Unit(object):
         self.preconditions = []
         self.truncated = 0
 
+    failed = 0
+
     @property
     def thorough(self):
         return self.tier == "thorough"
@@ -65,6 +67,12 @@ class Unit(object):
         ob = Oblig(oid, clause, hyps, goal, vars=vars, replay=replay, kind=kind)
         r = prove.discharge(ob, known=self.known, prop=self.prop, rlimit=rlimit)
         self.results.append(r)
+        if r.status == prove.FAILED and not getattr(r, "known", None):
+            self.failed += 1
+            if self.failed >= MAX_FAILED_PER_UNIT:
+                # a breaking change can multiply the paths of a unit (every refinement fork fails its clause);
+                # the verdict is settled, further enumeration only costs time
+                raise StopUnit("stopped after %d failed obligations" % self.failed)
         if len(self.samples) < 3 and r.status == DISCHARGED:
             self.samples.append({"obligation": oid, "clause": clause,
                                  "hyps": [str(h)[:300] for h in hyps[:6]], "goal": str(goal)[:600],
@@ -140,6 +148,13 @@ class Unit(object):
         return None
 
 
+MAX_FAILED_PER_UNIT = 40
+
+
+class StopUnit(Exception):
+    pass
+
+
 def _run_unit(arg):
     prop, modname, uname, tier, seed = arg
     t0 = time.time()
@@ -147,6 +162,7 @@ def _run_unit(arg):
     U = Unit(prop, uname, tier, seed, known)
     status = "ok"
     err = None
+    old_env, old_td = os.environ.get("TMPDIR"), tempfile.tempdir
     tmp = tempfile.mkdtemp(prefix="pyvc_%s_" % prop)
     os.environ["TMPDIR"] = tmp
     tempfile.tempdir = tmp
@@ -154,6 +170,8 @@ def _run_unit(arg):
         mod = importlib.import_module(modname)
         fn = dict(mod.UNITS)[uname]
         fn(U)
+    except StopUnit as e:
+        U.notes.append(str(e))
     except Undecided as e:
         status, err = "undecided", "%s" % (e,)
     except PathLimit as e:
@@ -164,6 +182,12 @@ def _run_unit(arg):
         status, err = "crash", traceback.format_exc()
     finally:
         shutil.rmtree(tmp, ignore_errors=True)
+        # a unit run in-process (single unit, --jobs 1) must not leave the removed directory as the temp dir
+        if old_env is None:
+            os.environ.pop("TMPDIR", None)
+        else:
+            os.environ["TMPDIR"] = old_env
+        tempfile.tempdir = old_td
     return {
         "unit": uname, "status": status, "error": err, "wall_s": time.time() - t0,
         "results": [r.as_dict() for r in U.results], "functions": sorted(U.functions),
